@@ -87,3 +87,21 @@ def run(check):
     check.run_rule('C08.R5b', r5b)
     check.run_rule('C08.R6', lambda c: rule_direct_concat(c, 'C08.R6'))
     check.run_rule('C08.R7', lambda c: rule_wrapper_swap(c, 'C08.R7'))
+
+    def r2c(c):
+        # mask()/embed() edit the classified provenance map in place: it must be a private copy, or the
+        # *input's* map loses entries for parameters it still has
+        from ..rules_alias import Alias, site_of
+        from ..report import Check
+        al = Alias(Check(c.prop_id, c.repo, tier=c.tier))
+        sp = c.repo.func('_signatures:sort_params')
+        ra = al.ret_alias.get(sp.key, {})
+        key = '%s|private-map' % sp.key
+        if ra.get(5) or ra.get('*'):
+            c.violation('C08.R2', site_of(sp, sp.node), 'the classification hands out the input\'s own provenance map (%s): mask() removes the entries '
+                        'of consumed parameters from it in place, so the input signature ends up with parameters that have no entry'
+                        % ', '.join(sorted((ra.get(5) or set()) | (ra.get('*') or set()))), key=key,
+                        witness='discovery of a wrapper that calls inner(x, *args, **kwargs); then sigtools.signature(inner).sources lacks an entry')
+        else:
+            c.holds('C08.R2', site_of(sp, sp.node), 'the classification copies the provenance map before mask()/embed() edit it', key=key)
+    check.run_rule('C08.R2c', r2c)
